@@ -74,15 +74,22 @@ def framed_by_newline(fb):
 
 
 def fixed_path_arg(run, rel, body):
-    """devtty/devnull: the literal (or a macro of this file defined as one literal) handed to snoopy_output_fileoutput"""
-    m = re.search(r"return\s+snoopy_output_fileoutput\s*\(\s*logMessage\s*,\s*(?:" + STR + r"|([A-Za-z_]\w*))\s*\)\s*;", body)
-    if not m:
+    """devtty/devnull: the path handed to snoopy_output_fileoutput in the function's single call of it: a literal, a macro of this file
+    defined as one literal, or a local pointer whose only value is one literal (names are free)"""
+    calls = re.findall(r"snoopy_output_fileoutput\s*\(\s*logMessage\s*,\s*(?:" + STR + r"|([A-Za-z_]\w*))\s*\)", body)
+    if len(calls) != 1:
         return b""
-    if m.group(1) is not None:
-        return c_unescape(m.group(1))
-    d = defines(run.src(rel)).get(m.group(2), "")
+    lit, ident = calls[0]
+    if not ident:
+        return c_unescape(lit)
+    d = defines(run.src(rel)).get(ident, "")
     mm = re.fullmatch(STR, d)
-    return c_unescape(mm.group(1)) if mm else b""
+    if mm:
+        return c_unescape(mm.group(1))
+    loc = re.findall(r"\bchar\s+(?:const\s*)?\*\s*(?:const\s+)?%s\s*=\s*" % re.escape(ident) + STR + r"\s*;", body)
+    if len(loc) == 1 and len(re.findall(r"\b%s\s*=(?!=)" % re.escape(ident), body)) == 1:
+        return c_unescape(loc[0])
+    return b""
 
 
 # "the message is empty": strlen(logMessage) == 0 or logMessage[0] == '\\0' (or *logMessage), either operand order
